@@ -42,11 +42,20 @@ func (t *termer) inlineResult(call *ssa.Call, idx int, d int) (string, bool) {
 	if len(rets) == 0 {
 		return "", false
 	}
+	// (value, error) helpers: a return that hands back a zero value together with a certainly non-nil
+	// error contributes nothing when the caller touches the value only after testing err == nil
+	dropFail := false
+	if res := cal.Signature.Results(); res.Len() >= 2 && idx < res.Len()-1 && isErrorType(res.At(res.Len()-1).Type()) {
+		dropFail = c.valueUsedOnlyOnSuccess(call, idx)
+	}
 	c.frames = append(c.frames, call)
 	t.inl++
 	set := map[string]bool{}
 	for _, r := range rets {
 		if idx < len(r.Results) {
+			if dropFail && isZeroConst(r.Results[idx]) && c.surelyNonNilError(r.Results[len(r.Results)-1], r) {
+				continue
+			}
 			set[t.term(r.Results[idx], d+1)] = true
 		}
 	}
@@ -197,6 +206,41 @@ func (c *Ctx) resolve(v ssa.Value) ssa.Value {
 			if a, ok := c.paramBinding(x); ok && a != v {
 				v = a
 				continue
+			}
+			return v
+		case *ssa.Call:
+			// the result of a new helper all of whose returns yield one and the same value
+			cal := x.Common().StaticCallee()
+			if cal == nil || !c.isNew(cal) || cal.Signature.Results().Len() != 1 || len(c.frames) > 3 {
+				return v
+			}
+			for _, f := range c.frames {
+				if f.Common().StaticCallee() == cal {
+					return v
+				}
+			}
+			rets := returnsOf(cal)
+			if len(rets) == 0 {
+				return v
+			}
+			c.frames = append(c.frames, x)
+			var one ssa.Value
+			same := true
+			for _, ret := range rets {
+				rv := c.resolve(ret.Results[0])
+				if one == nil {
+					one = rv
+				} else if one != rv {
+					same = false
+				}
+			}
+			c.frames = c.frames[:len(c.frames)-1]
+			if !same || one == nil {
+				return v
+			}
+			switch one.(type) {
+			case *ssa.MakeMap, *ssa.MakeSlice, *ssa.Alloc, *ssa.Const, *ssa.Parameter:
+				return one // an object created (or passed through) by the helper
 			}
 			return v
 		case *ssa.ChangeType:
@@ -395,6 +439,10 @@ func (t *termer) term(v ssa.Value, d int) string {
 		if n := c.calleeName(cc); n != "" {
 			if _, isB := cc.Value.(*ssa.Builtin); isB {
 				return n + "(" + t.args(cc.Args, d) + ")"
+			}
+			if sx, sep, ok := t.searchCall(x, d); ok {
+				// strings.Index(x, "s") ≡ strings.IndexByte(x, 's') ≡ strings.IndexRune(x, 's') (ASCII)
+				return "index(" + t.term(sx, d+1) + ", " + fmt.Sprintf("%q", sep) + ")"
 			}
 			if (n == "reflect.Indirect" || n == "(reflect.Value).Elem") && len(cc.Args) == 1 {
 				if in, ok := c.resolve(cc.Args[0]).(*ssa.Call); ok && c.calleeName(in.Common()) == "reflect.New" {
@@ -774,4 +822,117 @@ func (t *termer) canonSlice(s *ssa.Slice, d int) (string, bool) {
 		}
 	}
 	return "", false
+}
+
+func isZeroConst(v ssa.Value) bool {
+	k, ok := v.(*ssa.Const)
+	if !ok {
+		return false
+	}
+	if k.Value == nil {
+		return true
+	}
+	switch k.Value.Kind() {
+	case constant.String:
+		return constant.StringVal(k.Value) == ""
+	case constant.Int:
+		n, ok := constant.Int64Val(k.Value)
+		return ok && n == 0
+	case constant.Bool:
+		return !constant.BoolVal(k.Value)
+	}
+	return false
+}
+
+// surelyNonNilError: an error interface built from a typed value (never == nil).
+func (c *Ctx) surelyNonNilError(v ssa.Value, at *ssa.Return) bool {
+	if _, ok := v.(*ssa.MakeInterface); ok {
+		return true
+	}
+	// or the return is reached only after `v != nil` was tested true
+	for _, f := range c.domFacts(at.Block()) {
+		if f.Alts != nil {
+			continue
+		}
+		bo, ok := f.Cond.(*ssa.BinOp)
+		if !ok || (bo.Op != token.EQL && bo.Op != token.NEQ) {
+			continue
+		}
+		if (isConstNil(bo.Y) && bo.X == v || isConstNil(bo.X) && bo.Y == v) && (bo.Op == token.NEQ) == f.Pos {
+			return true
+		}
+	}
+	return false
+}
+
+// valueUsedOnlyOnSuccess: every use of result #idx of call lies where the call's error result is known nil.
+func (c *Ctx) valueUsedOnlyOnSuccess(call *ssa.Call, idx int) bool {
+	refs := call.Referrers()
+	if refs == nil {
+		return false
+	}
+	var val, errv *ssa.Extract
+	last := call.Type().(*types.Tuple).Len() - 1
+	for _, r := range *refs {
+		if e, ok := r.(*ssa.Extract); ok {
+			if e.Index == idx {
+				val = e
+			}
+			if e.Index == last {
+				errv = e
+			}
+		}
+	}
+	if val == nil || errv == nil || val.Referrers() == nil {
+		return false
+	}
+	okAt := func(b *ssa.BasicBlock) bool {
+		for _, f := range c.domFacts(b) {
+			if f.Alts != nil {
+				continue
+			}
+			bo, ok := f.Cond.(*ssa.BinOp)
+			if !ok || (bo.Op != token.EQL && bo.Op != token.NEQ) {
+				continue
+			}
+			var x ssa.Value
+			if isConstNil(bo.Y) {
+				x = bo.X
+			} else if isConstNil(bo.X) {
+				x = bo.Y
+			}
+			if x != ssa.Value(errv) {
+				continue
+			}
+			// fact: (err == nil) holds
+			if (bo.Op == token.EQL) == f.Pos {
+				return true
+			}
+		}
+		return false
+	}
+	n := 0
+	for _, r := range *val.Referrers() {
+		switch x := r.(type) {
+		case *ssa.DebugRef:
+			continue
+		case *ssa.Phi:
+			for i, e := range x.Edges {
+				if e == ssa.Value(val) && !okAt(x.Block().Preds[i]) {
+					// the edge itself may be the success edge of the test
+					pred := x.Block().Preds[i]
+					if l, ok := c.edgeLitTo(pred, x.Block()); !(ok && !l.Pos && l.Term == "nonnil("+c.term(errv)+")") {
+						return false
+					}
+				}
+			}
+			n++
+		default:
+			if !okAt(r.Block()) {
+				return false
+			}
+			n++
+		}
+	}
+	return n > 0
 }
